@@ -109,6 +109,24 @@ pub fn gen(out: &mut Out, thorough: bool) {
     let tri = if thorough { pool.len() } else { 12 };
     for a in pool.iter().take(tri) { for b in pool.iter().take(tri) { for c in pool.iter().take(tri) { l(format!("ord cmp3 {} {} {}", a, b, c), out); } } }
     out.exhaustive.push(format!("all {}x{} pairs and {}^3 triples of a pool covering every variant, prefixes and near-equal strings/numbers", pool.len(), pool.len(), tri));
+    // numbers that denote the same (or nearly the same) real number in different spellings: content is
+    // the spelling, so they must be unequal, never compare Equal, and the order must stay transitive
+    let nums = ["0", "-0", "0.0", "-0.0", "0e0", "1", "1.0", "1e0", "10", "9", "-9", "-10", "1E1", "10.0",
+        "9007199254740992", "9007199254740993", "9007199254740992.5", "-9007199254740993", "-9007199254740992", "-9007199254740992.5",
+        "18446744073709551615", "18446744073709551616", "1.8446744073709552e19", "1e400", "2e400", "1e-400", "0.1", "0.10", "1e-1"];
+    let enc = |t: &str| format!("#{};", cps_inner(t));
+    for a in nums { for b in nums {
+        l(format!("ord cmp {} {}", enc(a), enc(b)), out);
+        l(format!("ord cmp [{}] [{}]", enc(a), enc(b)), out);
+    } }
+    let ntri = if thorough { nums.len() } else { 14 };
+    for a in nums.iter().take(ntri) { for b in nums.iter().take(ntri) { for c in nums.iter().take(ntri) {
+        l(format!("ord cmp3 {} {} {}", enc(a), enc(b), enc(c)), out);
+    } } }
+    for a in &nums[14..20] { for b in &nums[14..20] { for c in &nums[14..20] {
+        l(format!("ord cmp3 {} {} {}", enc(a), enc(b), enc(c)), out);
+    } } }
+    out.exhaustive.push(format!("all pairs (bare and inside an array) of {} number spellings with equal or near-equal numeric value (zeros, 1/1.0/1e0, 10/1E1, integers around 2^53 and 2^64 with decimals, over/underflowing exponents), all triples of the first {} and of the 2^53 group", nums.len(), ntri));
     // generated values with near-copies
     let n = if thorough { 40000 } else { 6000 };
     for _ in 0..n {
